@@ -47,12 +47,13 @@ zero(void *mem, size_t len)
 bool
 zip_in_protected_header(json_t *json)
 {
+    json_auto_t *dec = NULL;
     json_t *prt = NULL;
     char *z = NULL;
 
     prt = json_object_get(json, "protected");
     if (prt && json_is_string(prt))
-        prt = jose_b64_dec_load(prt);
+        prt = dec = jose_b64_dec_load(prt);
 
     /* Check if we have "zip" in the protected header. */
     if (json_unpack(prt, "{s:s}", "zip", &z) == -1)
